@@ -557,6 +557,16 @@ class Scenario(object):
 
         # accepted
         if 'ok' not in expect:
+            if 'C01' in self.active and op[0] in ('p_sub', 'p_wd') and op[1] in before['ports'] and self.broker is not None:
+                # whatever one thinks of accepting it: a transfer that took place must be zero-sum
+                base = getattr(self, 'ccy', 'USD')
+                dm = F(after['master'][base]) - F(before['master'][base])
+                dp = F(after['ports'][op[1]]['cash']) - F(before['ports'][op[1]]['cash'])
+                scale = abs(F(before['master'][base])) + abs(F(before['ports'][op[1]]['cash'])) + abs(F(op[2])) + 1
+                if abs(dm + dp) > Fraction(core.REL) * scale:
+                    self.viol('C01', 'transfer-not-zero-sum/%s' % op[0],
+                              'transfer %r (which the harness would have expected to be refused) moved the master account by %s '
+                              'and the portfolio by %s' % (op, float(dm), float(dp)))
             if 'C15' in self.active:
                 self.viol('C15', 'silently-accepted/%s' % self.fault_kind(op, expect),
                           'invalid request %r was accepted (expected %s)' % (op, sorted(expect)),
@@ -1440,6 +1450,7 @@ def make_cfg(rng):
         fee = ['pct', rate(), rate()]
     return {
         'start': rng.choice(STARTS),
+        'loud': rng.random() < 0.15,        # event printing left on (the library default), output discarded
         'base_currency': rng.choice(['USD', 'USD', 'USD', 'GBP', 'EUR']),
         'initial_funds': rng.choice([0.0, 1e4, 1e6, 123456.78, rand_amount(rng)]),
         'fee': fee,
@@ -1461,6 +1472,7 @@ class Gen(object):
         self.tmax = sc.t
         self.norder = 0
         self.ids_by_pid = {}
+        self.idle = set()
 
     def qty(self, pid=None, asset=None):
         rng = self.rng
@@ -1504,6 +1516,9 @@ class Gen(object):
         b = sc.broker
         pids = list(sc.model.ports)
         if not pids or (len(pids) < 4 and rng.random() < 0.06):
+            if not pids and rng.random() < 0.15:
+                self.idle.add('p1')              # the first portfolio stays cash-less and idle
+                self.queue.append(['create', 'p2'])
             return ['create', 'p%d' % (len(pids) + 1)]
         if self.faults != 'none' and rng.random() < (0.22 if self.faults == 'all' else 0.06):
             f = self.fault()
@@ -1511,7 +1526,7 @@ class Gen(object):
                 return f
         master = b.get_account_cash_balance(sc.ccy)
         r = rng.random()
-        pid = rng.choice(pids)
+        pid = rng.choice([p_ for p_ in pids if p_ not in self.idle] or pids)
         assets = sc.cfg['assets']
         if r < 0.06:
             return ['acct_sub', rand_amount(rng)]
@@ -1567,10 +1582,10 @@ class Gen(object):
         if self.faults == 'all':
             kinds += ['update_back', 'update_back', 'update_back', 'update_back_ok', 'update_back_pos', 'neg_mark', 'neg_mark', 'pf_sub_back', 'pf_sub_neg',
                       'pf_wd_back', 'pf_wd_neg', 'pf_wd_over', 'pf_txn_back', 'pf_mark_neg', 'pf_mark_back',
-                      'pf_txn_behind_pos', 'pf_txn_behind_pos', 'pf_mark_behind_pos']
+                      'pf_txn_behind_pos', 'pf_txn_behind_pos', 'pf_mark_behind_pos', 'pf_mark_repeat']
         k = rng.choice(kinds)
         amt = rand_amount(rng) + 0.01
-        over = lambda x: float(max(x, 0.0)) * rng.choice([1.0000001, 1.5, 10.0]) + rng.choice([0.01, 1.0, 1e6])  # noqa
+        over = lambda x: float(max(x, 0.0)) * rng.choice([1.0, 1.0, 1.0000001, 1.5, 10.0]) + rng.choice([0.001, 0.004, 0.0098, 0.01, 1.0, 1e6])  # noqa
         if k == 'acct_sub_neg':
             return ['acct_sub', -amt]
         if k == 'acct_wd_neg':
@@ -1698,6 +1713,13 @@ class Gen(object):
             if not held:
                 return None
             return ['pf_mark', pid, rng.choice(held), rand_price(rng), earlier]
+        if k == 'pf_mark_repeat':
+            stale = [(a, b.portfolios[pid].pos_handler.positions[a]) for a in held
+                     if b.portfolios[pid].pos_handler.positions[a].current_dt < clock]
+            if not stale:
+                return None
+            a, pos_ = rng.choice(stale)
+            return ['pf_mark', pid, a, float(pos_.current_price), str(pos_.current_dt)]
         if k in ('pf_txn_behind_pos', 'pf_mark_behind_pos'):
             cands = [(a, b.portfolios[pid].pos_handler.positions[a].current_dt) for a in held
                      if b.portfolios[pid].pos_handler.positions[a].current_dt > clock]
@@ -1758,8 +1780,9 @@ def run_case(case, acc, prop, active=None):
         # replay of a symmetry pair: same price / quantity / rates
         return replay_symmetry(case, acc)
     cls = PortfolioScenario if case.get('level') == 'portfolio' else Scenario
-    sc = cls(case['cfg'], active or {prop}, acc)
-    v = run_ops(sc, case['ops'], acc, prop)
+    with core.loud(bool(case['cfg'].get('loud'))):
+        sc = cls(case['cfg'], active or {prop}, acc)
+        v = run_ops(sc, case['ops'], acc, prop)
     if v is not None and v.prop == prop:
         acc.violation(v, case)
     finish_case(sc, acc, prop, case['ops'])
@@ -1769,6 +1792,8 @@ def run_case(case, acc, prop, active=None):
 def generate_and_run(rng, acc, prop, faults, nops, active=None):
     """Generate one broker-level case in lock-step and run the monitors on it."""
     cfg = make_cfg(rng)
+    loud = core.loud(bool(cfg.get('loud')))
+    loud.__enter__()
     sc = Scenario(cfg, active or {prop}, acc)
     gen = Gen(rng, sc, faults)
     ops = []
@@ -1787,8 +1812,12 @@ def generate_and_run(rng, acc, prop, faults, nops, active=None):
     except Violation as v:
         if v.prop == prop:
             acc.violation(v, case)
+    finally:
+        loud.__exit__(None, None, None)
     acc.evaluations += 1
     acc.count('ops_executed', len(ops))
+    if cfg.get('loud'):
+        acc.count('cases_with_event_printing_on')
     finish_case(sc, acc, prop, ops)
     if len(ops) <= 40:
         acc.sample({'cfg': cfg, 'ops': ops})
